@@ -1,8 +1,11 @@
 CONSTANTS
   MaxClients = 2
   MaxOpts = 2
+  MaxPool = 0
   Dev_SharedDefaultAck = FALSE
+  Dev_OptionCapturesToken = FALSE
   Concrete = FALSE
+  Family = "free"
   Emit = FALSE
   Samples = 0
   FromFile = FALSE
@@ -10,6 +13,7 @@ INIT Init
 NEXT Next
 INVARIANT InvTypes
 INVARIANT InvDefaultPristine
+INVARIANT InvOwnToken
 INVARIANT InvHelloOwn
 PROPERTY InvIsolation
 CHECK_DEADLOCK FALSE
